@@ -5,6 +5,7 @@ CONSTANTS
   QueryClasses = {"DA","DB1"}
   AllowClear = FALSE
   AllowRelate = FALSE
+  AllowQueryX = FALSE
   AllowSweep = TRUE
   Hist = FALSE
   PopIdOfNone = FALSE
